@@ -258,6 +258,30 @@ def correspondence(ctx):
     ctx.cov['translated_kernels'] = ['fkC%s%s' % (k, b) for k in KINDS for b in ('11', '12', '22')]
 
 
+def source_matrix(case, ir):
+    """the finalised connection matrix the SOURCE AS WRITTEN would deliver for this pair: translated block kernels interpreted,
+    placed like PanelAssembly.get_k0_conn places them, upper triangle mirrored"""
+    from compmech.panel import connections
+    asm, p1, p2 = build(case)
+    size = asm.get_size()
+    kind = case['kind']
+    ctype = {'SSycte': 'ycte', 'BFycte': 'ycte', 'SSxcte': 'xcte', 'BFxcte': 'xcte', 'SB': 'bot-top'}[kind]
+    kt, kr = pc.quiet(connections.calc_kt_kr, p1, p2, ctype)
+    kr = kr if kr is not None else 0.
+    dsb = sum(p1.plyts) / 2. + sum(p2.plyts) / 2.
+    kernels, consts = ir[kind]
+    params = dict(kt=kt, kr=kr, dsb=dsb, size=size)
+    for k in ('xcte1', 'xcte2', 'ycte1', 'ycte2'):
+        if k in case:
+            params[k] = case[k]
+    S = np.zeros((size, size))
+    for blk, (ra, ca) in (('11', (p1, p1)), ('12', (p1, p2)), ('22', (p2, p2))):
+        m_ = panel_v.interp_kernel(kernels[blk], consts, None, params, size, ra.row_start, ca.col_start, objs=dict(p1=p1, p2=p2))
+        S += m_.T if (blk == '12' and p1.row_start > p2.col_start) else m_
+    S = np.triu(S) + np.triu(S, 1).T
+    return S, oracle(case, p1, p2, kt, kr, size), (p1, p2)
+
+
 def search(ctx, reason):
     try:
         ir = translate(ctx)
@@ -266,6 +290,24 @@ def search(ctx, reason):
         ir = None
     if ir is None:
         return False
+    # model arm: the source as written against the mismatch-energy Hessian (finds what a stale binary hides)
+    st = ctx.rng.getstate()
+    for t in range(ctx.scale(60, 300)):
+        case = gen(ctx, ctx.rng)
+        ctx.evaluations += 1
+        try:
+            S, want, (p1, p2) = source_matrix(case, ir)
+        except Exception:
+            continue
+        d = pc.rel_diff(S, want)
+        if d > 1e-8:
+            i, j = np.unravel_index(np.abs(S - want).argmax(), S.shape)
+            ctx.violation('C12 fails on the source as written: the %s block kernels interpreted on this pair of panels give %.6e at [%d,%d], '
+                          'the Hessian of the interface mismatch energy is %.6e (rel %.3e of the matrix); the running binary is stale '
+                          'w.r.t. this source if the implementation arm stays quiet' % (case['kind'], S[i, j], i, j, want[i, j], d),
+                          dict(case=case, source_arm=True, broken=reason))
+            return True
+    ctx.rng.setstate(st)
     for t in range(ctx.scale(40, 200)):
         case = gen(ctx, ctx.rng)
         ctx.evaluations += 1
